@@ -27,7 +27,8 @@ Elems == 1..(N + 1)          \* the inputs: modules 1..N and the vector (N + 1)
 
 \* ---------- declarative expectation (C03) ----------
 DupStart == \E i, j \in 1..N : i # j /\ mods[i].s = mods[j].s
-RcStart  == \E i, j \in 1..N : mods[i].s = RC(mods[j].s)      \* i = j: a palindromic start overhang
+RcStart  == \E i, j \in 1..N : i # j /\ mods[i].s = RC(mods[j].s)   \* two DIFFERENT modules (a palindromic overhang is
+                                                                     \* its own reverse complement: that is one module, not two)
 RECURSIVE Walk(_, _, _)
 Walk(o, used, acc) ==                  \* <<"ok", chain>> or <<"missing", stall overhang>>
   IF o = vec.s THEN <<"ok", acc>>
@@ -77,7 +78,7 @@ MapInsert == /\ pc = "map" /\ Tick
              /\ UNCHANGED <<vec, mods, faultAt, nxt, chain, deref>>
 
 RcCheck == /\ pc = "rc" /\ Tick
-           /\ IF \E j \in 1..Len(map) : MapHas(RC(map[j][1])) THEN Fail(<<"DuplicateModules">>)
+           /\ IF \E j, k \in 1..Len(map) : j # k /\ map[k][1] = RC(map[j][1]) THEN Fail(<<"DuplicateModules">>)
               ELSE pc' = "deref" /\ UNCHANGED outcome
            /\ UNCHANGED <<vec, mods, map, chain, faultAt, deref, nxt>>
 
